@@ -170,28 +170,38 @@ func checkC02(w *World, r *Report) {
 		}
 	}
 	// ---------- C02.boundaries (b): hand-over ----------
-	var histCall, recCall *Site
-	var persists []*Site
-	for _, s := range cg.Sites[mint] {
+	// the history write, the state persists and the recursion into the successor are looked for in the minting routine
+	// and in the helpers it calls (two levels); liveness and order are decided along the call chains
+	isMintRec := func(s *Site) bool { return calleeIs(s, "x/cfeminter/keeper.Keeper.mint") }
+	isHist := func(s *Site) bool { return calleeIs(s, "x/cfeminter/keeper.Keeper.SetMinterStateHistory") }
+	isPersist := func(s *Site) bool { return calleeIs(s, "x/cfeminter/keeper.Keeper.SetMinterState") }
+	handEff := w.effectsBelow(mint, func(s *Site) bool { return isMintRec(s) || isHist(s) || isPersist(s) }, 2)
+	var hists, recs, persists []EffSite
+	for _, e := range handEff {
 		switch {
-		case calleeIs(s, "x/cfeminter/keeper.Keeper.SetMinterStateHistory"):
-			histCall = s
-		case calleeIs(s, "x/cfeminter/keeper.Keeper.mint"):
-			recCall = s
-		case calleeIs(s, "x/cfeminter/keeper.Keeper.SetMinterState"):
-			persists = append(persists, s)
+		case isHist(e.Site):
+			hists = append(hists, e)
+		case isMintRec(e.Site):
+			recs = append(recs, e)
+		default:
+			persists = append(persists, e)
 		}
 	}
+	var histCall, recCall *EffSite
+	if len(hists) == 1 {
+		histCall = &hists[0]
+	}
+	if len(recs) == 1 {
+		recCall = &recs[0]
+	}
 	if histCall == nil || recCall == nil || len(persists) == 0 {
-		r.Bad("C02.boundaries", "hand-over: history, successor and persist calls", w.Pos(mint.Pos()), "the minting routine no longer stores history / recurses into the successor / persists the state")
+		r.Bad("C02.boundaries", "hand-over: history, successor and persist calls", w.Pos(mint.Pos()), fmt.Sprintf("the minting routine (with its helpers) has %d history writes, %d recursions into the successor, %d state persists: expected exactly one history write and one recursion, and at least one persist", len(hists), len(recs), len(persists)))
 	} else {
-		var cur ssa.Value // currentMinter
 		term := func(v ssa.Value) string {
 			if isBlockTime(v) {
 				return "now"
 			}
-			if root, ok := derefOfPtrField(v, "EndTime"); ok {
-				cur = root
+			if _, ok := derefOfPtrField(v, "EndTime"); ok {
 				return "end"
 			}
 			if loadOfField(v, "EndTime", nil) {
@@ -206,16 +216,16 @@ func checkC02(w *World, r *Report) {
 			expect string // stay | handover | either
 		}
 		for _, sc := range []scen{{"EndTime == nil", true, 0, "stay"}, {"now before EndTime", false, -1, "stay"}, {"now after EndTime", false, 1, "handover"}, {"now equal to EndTime", false, 0, "either"}} {
-			live := ReachUnder(mint, OrderEval(term, twoTermCmp("now", "end", sc.s), func(t string) (bool, bool) {
+			eval := OrderEval(term, twoTermCmp("now", "end", sc.s), func(t string) (bool, bool) {
 				if t == "endptr" {
 					return sc.isNil, true
 				}
 				return false, false
-			}))
-			hist, rec := live.LiveInstr(histCall.Instr), live.LiveInstr(recCall.Instr)
+			})
+			hist, rec := LiveEff(mint, eval, *histCall), LiveEff(mint, eval, *recCall)
 			stayPersist := false
 			for _, p := range persists {
-				if live.LiveInstr(p.Instr) && !instrDominates(histCall.Instr, p.Instr) {
+				if LiveEff(mint, eval, p) && !effDominates(*histCall, p) {
 					stayPersist = true
 				}
 			}
@@ -232,9 +242,8 @@ func checkC02(w *World, r *Report) {
 				ok = (hist && rec && !stayPersist) || (!hist && !rec && stayPersist)
 				bad = "at the boundary instant neither a clean stay nor a clean hand-over happens"
 			}
-			r.Check(ok, "C02.boundaries", "hand-over: "+sc.name+" => "+sc.expect, w.Pos(histCall.Instr.Pos()), fmt.Sprintf("history=%v successor=%v stay-persist=%v", hist, rec, stayPersist), bad)
+			r.Check(ok, "C02.boundaries", "hand-over: "+sc.name+" => "+sc.expect, w.Pos(histCall.Site.Instr.Pos()), fmt.Sprintf("history=%v successor=%v stay-persist=%v", hist, rec, stayPersist), bad)
 		}
-		_ = cur
 	}
 	// ---------- C02.boundaries (c): LinearMinting.AmountToMint ----------
 	{
@@ -360,65 +369,112 @@ func checkC02(w *World, r *Report) {
 	}
 	// ---------- C02.carry ----------
 	if histCall != nil && recCall != nil {
-		var seq, am, rem ssa.Value
-		var anyStore *ssa.Store
-		for _, fs := range FieldStores(mint) {
-			if !namedIs(fs.Struct, "x/cfeminter/types", "MinterState") || !instrDominates(histCall.Instr, fs.Store) {
-				continue
-			}
-			anyStore = fs.Store
-			switch fs.Field {
-			case "SequenceId":
-				seq = fs.Store.Val
-			case "AmountMinted":
-				am = fs.Store.Val
-			case "RemainderFromPreviousMinter":
-				rem = fs.Store.Val
+		// the successor state = the argument of the persist that follows the history write
+		var succ *EffSite
+		nsucc := 0
+		for i := range persists {
+			if effDominates(*histCall, persists[i]) {
+				succ = &persists[i]
+				nsucc++
 			}
 		}
-		pos := w.Pos(histCall.Instr.Pos())
-		if anyStore != nil {
-			pos = w.Pos(anyStore.Pos())
-		}
-		okSeq := false
-		if bo, ok := seq.(*ssa.BinOp); ok && bo.Op == token.ADD && loadOfField(bo.X, "SequenceId", nil) {
-			if c, ok := bo.Y.(*ssa.Const); ok && c.Value != nil && c.Value.ExactString() == "1" {
-				okSeq = true
-			}
-		}
-		r.Check(okSeq, "C02.carry", "successor.SequenceId = old + 1", pos, "load SequenceId + 1", "the successor period is not the next sequence id")
-		r.Check(am != nil && isZeroIntValue(am), "C02.carry", "successor.AmountMinted = 0", pos, "zero", "the successor starts with a non-zero minted amount")
-		okRem := false
-		if rem != nil {
-			if c, ok := isCallTo(rem, "types.Dec.Sub"); ok {
-				a := c.Common().Args
-				if t, ok := isCallTo(a[1], "types.Dec.TruncateDec"); ok && t.Common().Args[0] == a[0] {
-					o := tr.Origins(a[0])
-					okRem = visitedCallNamed(o, "AmountToMint")
+		pos := w.Pos(histCall.Site.Instr.Pos())
+		if succ == nil || nsucc != 1 || len(succ.Site.Args()) < 2 {
+			r.Bad("C02.carry", "successor state persisted after the history entry", pos, fmt.Sprintf("%d persists of the state follow the history write (expected one: the successor's initial state)", nsucc))
+		} else {
+			pos = w.Pos(succ.Site.Instr.Pos())
+			sargs := succ.Site.Args()
+			sv := sargs[len(sargs)-1]
+			fieldO := func(f string) *Origin { return tr.OriginsVia(*succ, sv, []string{".MinterState." + f}) }
+			// SequenceId = old + 1
+			{
+				o := fieldO("SequenceId")
+				one, other := false, false
+				for _, l := range o.Leaves {
+					switch {
+					case l.Kind == "const":
+						if c, ok := l.V.(*ssa.Const); ok && c.Value != nil && c.Value.ExactString() == "1" {
+							one = true
+						} else {
+							other = true
+						}
+					case strings.Contains(l.Path, "MinterState.SequenceId"):
+					default:
+						other = true
+					}
 				}
+				onlyAdd := len(o.Ops) == 1 && o.Ops["op+"]
+				r.Check(one && !other && onlyAdd && o.HasPath("MinterState.SequenceId") && len(o.Phis) == 0, "C02.carry", "successor.SequenceId = old + 1", pos, "stored SequenceId + 1", "the successor period is not the next sequence id: "+o.String())
+			}
+			// AmountMinted = 0
+			{
+				o := fieldO("AmountMinted")
+				zero := len(o.Leaves) > 0
+				for _, l := range o.Leaves {
+					if c, ok := l.V.(*ssa.Call); !(ok && l.Kind == "call" && isZeroIntValue(c)) {
+						zero = false
+					}
+				}
+				r.Check(zero, "C02.carry", "successor.AmountMinted = 0", pos, "zero", "the successor starts with a non-zero minted amount: "+o.String())
+			}
+			// RemainderFromPreviousMinter = X - TruncateDec(X), nothing else mixed in
+			{
+				o := fieldO("RemainderFromPreviousMinter")
+				okRem := false
+				why := "the fractional remainder is dropped or replaced by a constant: it would be lost or emitted twice"
+				for _, c := range o.CallsNamed("types.Dec.Sub") {
+					a := c.Common().Args
+					t, isT := isCallTo(a[1], "types.Dec.TruncateDec")
+					if !isT || t.Common().Args[0] != a[0] {
+						continue
+					}
+					oX := tr.Origins(a[0])
+					if !visitedCallNamed(oX, "AmountToMint") {
+						continue
+					}
+					// every other operation and leaf on the slice belongs to X itself
+					extra := ""
+					for c2 := range o.Calls {
+						if c2 != c && c2 != t && !oX.Calls[c2] {
+							extra = callName(c2.Common())
+						}
+					}
+					for k := range o.Leaves {
+						if _, ok := oX.Leaves[k]; !ok && !(o.Leaves[k].V == ssa.Value(c) || o.Leaves[k].V == ssa.Value(t)) {
+							extra = k
+						}
+					}
+					if extra == "" && len(o.Phis) <= len(oX.Phis) {
+						okRem = true
+					} else {
+						why = "the carried remainder is not just the fractional part of this period's total: " + extra + " is mixed in (lost or emitted twice)"
+					}
+				}
+				r.Check(okRem, "C02.carry", "successor.RemainderFromPreviousMinter = X - TruncateDec(X) of this period's total", pos, "fractional part of the cumulative target, nothing else on its slice", why)
 			}
 		}
-		r.Check(okRem, "C02.carry", "successor.RemainderFromPreviousMinter = X - TruncateDec(X) of this period's total", pos, "fractional part of the cumulative target", "the fractional remainder is dropped or replaced by a constant: it would be lost or emitted twice")
 		// history = old state after its update
-		r.Check(instrDominates(amStore, histCall.Instr), "C02.carry", "history entry is the old state after its own update", w.Pos(histCall.Instr.Pos()), "the AmountMinted update dominates SetMinterStateHistory", "the history entry is stored before the final update of the old period")
+		r.Check(instrDominates(amStore, histCall.Top()), "C02.carry", "history entry is the old state after its own update", w.Pos(histCall.Site.Instr.Pos()), "the AmountMinted update dominates SetMinterStateHistory", "the history entry is stored before the final update of the old period")
 		// result = minted(successor) + amount
 		okRes := false
-		for _, ret := range Returns(mint) {
-			rv := retVals(ret)[0]
-			for _, v := range append([]ssa.Value{rv}, phiEdges(rv)...) {
-				if c, ok := isCallTo(v, "math.Int.Add"); ok {
-					a := c.Common().Args
-					isRec := func(x ssa.Value) bool {
-						ex, ok := x.(*ssa.Extract)
-						return ok && ex.Index == 0 && ex.Tuple == recCall.Instr.(ssa.Value)
-					}
-					if (isRec(a[0]) && a[1] == amount) || (isRec(a[1]) && a[0] == amount) {
-						okRes = true
+		if len(recCall.Chain) == 0 {
+			for _, ret := range Returns(mint) {
+				rv := retVals(ret)[0]
+				for _, v := range append([]ssa.Value{rv}, phiEdges(rv)...) {
+					if c, ok := isCallTo(v, "math.Int.Add"); ok {
+						a := c.Common().Args
+						isRec := func(x ssa.Value) bool {
+							ex, ok := x.(*ssa.Extract)
+							return ok && ex.Index == 0 && ex.Tuple == recCall.Site.Instr.(ssa.Value)
+						}
+						if (isRec(a[0]) && a[1] == amount) || (isRec(a[1]) && a[0] == amount) {
+							okRes = true
+						}
 					}
 				}
 			}
 		}
-		r.Check(okRes, "C02.carry", "amount returned upward = minted(successor) + amount", w.Pos(recCall.Instr.Pos()), "Add(result of the recursive call, amount)", "the total reported for the block omits this period's or the successor's part")
+		r.Check(okRes, "C02.carry", "amount returned upward = minted(successor) + amount", w.Pos(recCall.Site.Instr.Pos()), "Add(result of the recursive call, amount)", "the total reported for the block omits this period's or the successor's part")
 	}
 	// ---------- C02.start ----------
 	periodStartRule(w, r, "C02.start", []*ssa.Function{mint, infl})
